@@ -417,31 +417,57 @@ zif_open(const char *file)
 		const unsigned char *hds;
 	case '2':
 		/*@fallthrough@*/
-	case '3':
+	case '3': {
+		/* the counts come from the file, do the sums in 64 bits
+		 * and make sure the second header lies within the file */
+		uint64_t skip = sizeof(struct zih_s);
+
 		hds = hdr;
+		if (UNLIKELY((size_t)st.st_size < sizeof(struct zih_s))) {
+			goto unmp;
+		}
 		tmp.nlp = RDU32(hdr + offsetof(struct zih_s, tzh_leapcnt));
 		tmp.ntr = RDU32(hdr + offsetof(struct zih_s, tzh_timecnt));
 		tmp.nty = RDU32(hdr + offsetof(struct zih_s, tzh_typecnt));
-		hds += sizeof(struct zih_s);
-		hds += tmp.ntr * 4U;
-		hds += tmp.ntr;
-		hds += tmp.nty * (4U + 1U + 1U);
-		hds += RDU32(hdr + offsetof(struct zih_s, tzh_charcnt));
-		hds += tmp.nlp * (4U + 4U);
-		hds += RDU32(hdr + offsetof(struct zih_s, tzh_ttisstdcnt));
-		hds += RDU32(hdr + offsetof(struct zih_s, tzh_ttisgmtcnt));
+		skip += (uint64_t)tmp.ntr * 4U;
+		skip += (uint64_t)tmp.ntr;
+		skip += (uint64_t)tmp.nty * (4U + 1U + 1U);
+		skip += RDU32(hdr + offsetof(struct zih_s, tzh_charcnt));
+		skip += (uint64_t)tmp.nlp * (4U + 4U);
+		skip += RDU32(hdr + offsetof(struct zih_s, tzh_ttisstdcnt));
+		skip += RDU32(hdr + offsetof(struct zih_s, tzh_ttisgmtcnt));
+		if (UNLIKELY(skip + sizeof(struct zih_s) > (uint64_t)st.st_size)) {
+			goto unmp;
+		}
+		hds += skip;
 
 		if (UNLIKELY(memcmp(hds, TZ_MAGIC, 4U))) {
 			goto unmp;
 		}
 		hdr = hds;
+	}
 	case '\0':
+		if (UNLIKELY((size_t)st.st_size < sizeof(struct zih_s))) {
+			goto unmp;
+		}
 		tmp.nlp = RDU32(hdr + offsetof(struct zih_s, tzh_leapcnt));
 		tmp.ntr = RDU32(hdr + offsetof(struct zih_s, tzh_timecnt));
 		tmp.nty = RDU32(hdr + offsetof(struct zih_s, tzh_typecnt));
 		break;
 	default:
 		goto unmp;
+	}
+	/* the transitions, their types and the type table must be in the file
+	 * and every transition needs a type to point to */
+	with (uint64_t need = (uint64_t)tmp.ntr *
+	      (hdr[offsetof(struct zih_s, tzh_version)] ? 8U : 4U) +
+	      (uint64_t)tmp.ntr + (uint64_t)tmp.nty * 6U) {
+		if (UNLIKELY((uint64_t)(hdr - map) + sizeof(struct zih_s) + need >
+			     (uint64_t)st.st_size)) {
+			goto unmp;
+		} else if (UNLIKELY(!tmp.nty)) {
+			goto unmp;
+		}
 	}
 	/* alloc space, don't read leaps just transitions and types */
 	res = malloc(sizeof(*res) +
@@ -491,6 +517,13 @@ zif_open(const char *file)
 	/* clean up */
 	munmap(map, st.st_size);
 	close(fd);
+	/* type indices are used unchecked later on */
+	for (size_t i = 0U; i < res->ntr; i++) {
+		if (UNLIKELY(res->tys[i] >= res->nty)) {
+			free(res);
+			return NULL;
+		}
+	}
 	/* compactify, we disallow transitions to the same type */
 	real_ntr += res->ntr > 0U;
 	for (size_t i = 1U; i < res->ntr; i++) {
